@@ -6,6 +6,7 @@ git -C /repo diff --quiet || { echo "/repo not clean"; exit 2; }
 git -C /repo apply "$P" || { echo "patch does not apply"; exit 2; }
 timeout 1800 ./check $PROP $TIER > /tmp/seedcheck-$PROP.out 2>&1; RC=$?
 git -C /repo checkout -- .
+git -C /verif checkout -- evidence/$PROP.json 2>/dev/null   # evidence written while a seeded change was applied is not evidence
 echo "exit=$RC violations=$(grep -c '^VIOLATION' /tmp/seedcheck-$PROP.out) inconclusive=$(grep -c '^INCONCLUSIVE' /tmp/seedcheck-$PROP.out) harness=$(grep -c '^HARNESS-ERROR' /tmp/seedcheck-$PROP.out)"
 grep -A1 '^VIOLATION' /tmp/seedcheck-$PROP.out | head -4 | cut -c1-350
 tail -1 /tmp/seedcheck-$PROP.out | cut -c1-300
